@@ -7,11 +7,18 @@
 struct sprint_char_handler_data
 {
     char *cursor;
+    size_t room; /* characters that still fit, the terminator not counted */
 };
 
 static void sprint_printchar(void *d, int c)
 {
-    *(((struct sprint_char_handler_data *)d)->cursor)++ = c;
+    struct sprint_char_handler_data *data = (struct sprint_char_handler_data *)d;
+
+    if (data->room == 0)
+        return;
+
+    --data->room;
+    *data->cursor++ = c;
 }
 
 int vsprintf(char *s, const char *format, va_list ap)
@@ -20,9 +27,26 @@ int vsprintf(char *s, const char *format, va_list ap)
 
     struct sprint_char_handler_data data;
     data.cursor = s;
+    data.room = (size_t)-1;
 
     ret = __printf(sprint_printchar, &data, format, ap);
     *data.cursor = 0;    
+
+    return ret;
+}
+
+int vsnprintf(char *s, size_t maxlen, const char *format, va_list ap)
+{
+    int ret;
+
+    struct sprint_char_handler_data data;
+    data.cursor = s;
+    data.room = maxlen ? maxlen - 1 : 0;
+
+    /* the count is that of the complete output, as ISO C wants it */
+    ret = __printf(sprint_printchar, &data, format, ap);
+    if (maxlen)
+        *data.cursor = 0;
 
     return ret;
 }
@@ -41,12 +65,11 @@ int sprintf(char *buf, const char *format, ...)
 
 int snprintf(char *buf, size_t maxlen, const char *format, ...)
 {
-    (void) maxlen; //TODO
     int ret;
     va_list args;
 
     va_start(args, format);
-    ret = vsprintf(buf, format, args);
+    ret = vsnprintf(buf, maxlen, format, args);
     va_end(args);
 
     return ret;
